@@ -3,6 +3,8 @@ package main
 import (
 	"context"
 	logslog "log/slog"
+	"strings"
+	"time"
 
 	"github.com/hedzr/logg/slog"
 )
@@ -18,6 +20,17 @@ type entryPoint struct {
 }
 
 var bg = context.Background()
+
+// contexts a caller may hand in: live, already cancelled, past its deadline, nil.  Admission does
+// not depend on the context.
+var gateCtxs = func() []context.Context {
+	c1, cancel := context.WithCancel(context.Background())
+	cancel()
+	c2, cancel2 := context.WithDeadline(context.Background(), time.Unix(1, 0))
+	_ = cancel2
+	return []context.Context{context.Background(), c1, c2, nil}
+}()
+var gateCtxNames = []string{"", "#cancelled", "#expired", "#nil"}
 
 func eps() []entryPoint {
 	return []entryPoint{
@@ -84,7 +97,27 @@ func eps() []entryPoint {
 	}
 }
 
-var epTable = eps()
+var epTable = func() []entryPoint {
+	base := eps()
+	res := append([]entryPoint(nil), base...)
+	for ci := 1; ci < len(gateCtxs); ci++ {
+		ci := ci
+		for _, ep := range base {
+			if !strings.Contains(ep.name, "Context") && ep.name != "LogAttrs" && ep.name != "Logit" {
+				continue
+			}
+			ep := ep
+			inner := ep.call
+			res = append(res, entryPoint{ep.name + gateCtxNames[ci], ep.fixed, ep.pkg, func(l *slog.Entry, r slog.Level, m string) {
+				saved := bg
+				bg = gateCtxs[ci]
+				defer func() { bg = saved }()
+				inner(l, r, m)
+			}})
+		}
+	}
+	return res
+}()
 
 type gateObs struct {
 	R   int      `json:"r"`
@@ -152,6 +185,7 @@ func (r *coreRun) gateTable(id int, l *slog.Entry, o map[string]any) {
 	for _, sev := range r.sc.GateSevs {
 		add(sev, "Enabled", l.Enabled(slog.Level(sev)))
 		add(sev, "EnabledContext", l.EnabledContext(bg, slog.Level(sev)))
+		add(sev, "EnabledContext#cancelled", l.EnabledContext(gateCtxs[1], slog.Level(sev)))
 	}
 	// Entry.Log takes a log/slog level; the four standard levels map to their namesakes.
 	for _, p := range []struct {
